@@ -443,7 +443,8 @@ fn r_expr(e: &Expr, out: &mut String, st: &RStyle, rng: &mut Rng, prec: u8) {
             }
             // left-assoc chain: left operand at and-level, right operand must be an atom
             r_expr(l, out, st, rng, 1);
-            out.push_str(if st.spacing && rng.bool() { "&&" } else { " && " });
+            // `&` is a name character of the raw-name scanner, so a space must separate a raw name from `&&`
+            out.push_str(if st.spacing && rng.bool() { " &&" } else { " && " });
             r_expr(r, out, st, rng, 2);
             if paren {
                 out.push(')');
